@@ -1,0 +1,27 @@
+//go:build verif
+
+// Contracts for package simplify, read by the VC generator in /verif (govc). Comments only.
+// The distance function is an arbitrary pure total function (`purefuncs`).
+
+package simplify
+
+// Radial: the result is a prefix of ls holding a subsequence of the old vertices: first and last
+// kept, and (with the index map) out[k] == old(ls)[indexMap[k]] with a strictly increasing map.
+// Consecutive kept vertices are farther apart than the threshold, except possibly the last pair.
+//@ func (*RadialSimplifier).simplify(s, ls, area, wim) (out, indexMap)
+//@   purefuncs
+//@   requires len(ls) >= 1 && s.DistanceFunc != nil
+//@   modifies ls[*]
+//@   ensures out.ref == ls.ref && out.off == ls.off && 1 <= len(out) && len(out) <= len(ls)
+//@   ensures same(out[0], old(ls[0])) && same(out[len(out)-1], old(ls[len(ls)-1]))
+//@   ensures forall k :: 0 <= k && k + 2 < len(out) ==> s.DistanceFunc(out[k], out[k+1]) > s.Threshold
+//@   ensures wim ==> len(indexMap) == len(out) && indexMap[0] == 0 && indexMap[len(out)-1] == len(ls)-1
+//@   ensures wim ==> (forall k :: 0 <= k && k < len(out) ==> 0 <= indexMap[k] && indexMap[k] < len(ls) && same(out[k], old(ls[indexMap[k]])))
+//@   ensures wim ==> (forall k :: 0 <= k && k + 1 < len(out) ==> indexMap[k] < indexMap[k+1])
+//@   loop 1: invariant 1 <= i && i <= len(ls) && 1 <= count && count <= i && 0 <= current && current < i && count - 1 <= current
+//@   loop 1: invariant forall k :: i <= k && k < len(ls) ==> same(ls[k], old(ls[k]))
+//@   loop 1: invariant same(ls[count-1], old(ls[current])) && same(ls[0], old(ls[0]))
+//@   loop 1: invariant forall k :: 0 <= k && k + 1 < count ==> s.DistanceFunc(ls[k], ls[k+1]) > s.Threshold
+//@   loop 1: invariant wim ==> len(indexMap) == count && indexMap[0] == 0 && indexMap[count-1] == current
+//@   loop 1: invariant wim ==> (forall k :: 0 <= k && k < count ==> 0 <= indexMap[k] && indexMap[k] < i && same(ls[k], old(ls[indexMap[k]])))
+//@   loop 1: invariant wim ==> (forall k :: 0 <= k && k + 1 < count ==> indexMap[k] < indexMap[k+1])
